@@ -209,6 +209,7 @@ def run(ctx):
         c16_cov.from_array_more(env, t)
         c16_cov.direct_prop_faults(env, t)
         c16_cov.direct_add_faults(env, t)
+        c16_cov.direct_large_batches(env, t)
         c16_cov.direct_concat_forms(env, t, dict(aliens, **more_aliens))
         c16_cov.direct_from_array(env, t)
         c16_cov.derived_targets(env, t)
